@@ -15,7 +15,7 @@ import (
 	"verifharness/sched"
 )
 
-func init() { core.Register("WorkerPool", func() core.SUT { return &poolSUT{nthr: 2} }) }
+func init() { core.Register("WorkerPool", func() core.SUT { return &poolSUT{nthr: 3} }) }
 
 type poolSUT struct {
 	p        *hive.WorkerPool
@@ -32,7 +32,8 @@ type poolSUT struct {
 	parked  map[int]bool
 	incs    atomic.Int64 // increases of the pending counter
 	rmu     sync.Mutex
-	heldRes *any // result slot of the Submit that is held at the yield point
+	heldRes map[int]*any // thread -> result slot of its Submit that is held at the yield point
+	gids    map[int64]int
 }
 
 func settle() {
@@ -41,11 +42,18 @@ func settle() {
 	}
 }
 
+func (s *poolSUT) tidOf(gid int64) int {
+	s.mu.Lock()
+	defer s.mu.Unlock()
+	return s.gids[gid]
+}
+
 func (s *poolSUT) Reset(cfg core.Ev) {
 	s.drain()
 	hive.VerifHook = func(point string) {
 		if g := s.gate; g != nil {
-			g.Wait("hook:" + point)
+			// one stopping point per harness thread (tasks that submit from worker goroutines are thread 0: never held)
+			g.Wait(fmt.Sprintf("hook:%s:%d", point, s.tidOf(sched.Gid())))
 		}
 	}
 	s.workers = core.Int(cfg, "workers")
@@ -62,9 +70,14 @@ func (s *poolSUT) Reset(cfg core.Ev) {
 		}
 	})
 	s.threads = map[int]*sched.Thread{}
+	s.mu.Lock()
+	s.gids = map[int64]int{}
 	for i := 1; i <= s.nthr; i++ {
 		s.threads[i] = sched.NewThread(i)
+		s.gids[s.threads[i].GID()] = i
 	}
+	s.heldRes = map[int]*any{}
+	s.mu.Unlock()
 }
 
 // drain lets everything of the abandoned pool finish (best effort).
@@ -113,9 +126,10 @@ func (s *poolSUT) Apply(e core.Ev) (any, any) {
 	var r any = ""
 	rp := &r
 	if core.Str(e, "op") == "SubmitBegin" {
-		s.heldRes = new(any)
-		*s.heldRes = ""
-		rp = s.heldRes
+		slot := new(any)
+		*slot = ""
+		s.heldRes[core.Int(e, "t")] = slot
+		rp = slot
 	}
 	rmu := &s.rmu
 	switch op := core.Str(e, "op"); op {
@@ -137,15 +151,17 @@ func (s *poolSUT) Apply(e core.Ev) (any, any) {
 			f = func() any { p.PendingTasksCounter.WaitIsZero(); return nil }
 		case "SubmitEnd":
 			// the held Submit continues; its thread is already inside the call
-			s.gate.Free("hook:submit-after-running-check")
-			if !s.gate.Release("hook:submit-after-running-check") {
-				panic("no Submit is held at the yield point")
+			tid := core.Int(e, "t")
+			pt := fmt.Sprintf("hook:submit-after-running-check:%d", tid)
+			s.gate.Free(pt)
+			if !s.gate.Release(pt) {
+				panic("no Submit of that thread is held at the yield point")
 			}
 			settle()
-			return s.observe(rmu, s.heldRes)
+			return s.observe(rmu, s.heldRes[tid])
 		case "Submit", "SubmitBegin":
 			if op == "SubmitBegin" {
-				s.gate.Hold("hook:submit-after-running-check")
+				s.gate.Hold(fmt.Sprintf("hook:submit-after-running-check:%d", core.Int(e, "t")))
 			}
 			kind := core.Str(e, "k")
 			s.mu.Lock()
@@ -174,7 +190,9 @@ func (s *poolSUT) Apply(e core.Ev) (any, any) {
 		t.Go(f)
 	}
 	settle()
-	s.gate.Free("hook:submit-after-running-check")
+	if core.Str(e, "op") == "SubmitBegin" {
+		s.gate.Free(fmt.Sprintf("hook:submit-after-running-check:%d", core.Int(e, "t")))
+	}
 	return s.observe(rmu, rp)
 }
 
